@@ -37,7 +37,13 @@ RULE = ('cases = reply body from an alphabet around the accepted form (True, "Tr
         'oslo.context RequestContext, whose policy values always carry project_id, user_id, domain_id, roles ... - have keys in common with '
         'DIFFERENT values, and the URL placeholders range over keys found in the target only, in both, and (rarely) in the credentials only; '
         'the recorded request must have gone to the template filled from the TARGET (the overlap stub server compares every URL segment with '
-        'the target that the payload carries); a placeholder that the target cannot fill is left unconstrained.')
+        'the target that the payload carries); a placeholder that the target cannot fill is left unconstrained. '
+        'Stratum I (indirections of enforce): the remote check is reached through the default rule standing in for an enforced name that is '
+        'defined nowhere, through a rule: reference to an undefined name that ends at the default rule, through the rule of the enforced name '
+        'while an unrelated default rule exists, or as a check object handed to enforce - each behind 0-3 rule: aliases and under and/or/not, '
+        'with the default rule named `default` (built-in), by Enforcer(default_rule=<name>), by policy_default_rule, or given as a check object, '
+        'and the rules put in by set_rules, a policy file or registered defaults, in both encodings with and without debug logging; the same '
+        'per-call oracle: `rule` in the request is the name given to enforce() (left unconstrained for a check object, which has no name).')
 ASSUMPTIONS = ['bodies with unbalanced or repeated surrounding quotes ("True, True", ""True"") are driven and recorded but '
                'left unconstrained: "ignoring surrounding double quotes" can be read either way',
                'running as root, "file exists but unreadable" cannot be produced (os.access always succeeds): not simulated',
@@ -48,7 +54,11 @@ ASSUMPTIONS = ['bodies with unbalanced or repeated surrounding quotes ("True, Tr
                'what the call does then (the library raises KeyError) is driven and recorded but left unconstrained, except that the caller\'s target '
                'must be left alone',
                'the credentials of a RequestContext are taken to be its to_policy_values(): each of them must reach the server unchanged; further '
-               'keys next to them are left unconstrained']
+               'keys next to them are left unconstrained',
+               'a check OBJECT handed to enforce() has no policy name: what the request carries as `rule` then (the library sends null) is '
+               'recorded but left unconstrained; URL, target, credentials, encoding and decision are judged as usual',
+               'that a name defined nowhere (enforced, or referred to by rule:) is evaluated by the default rule is the documented behaviour '
+               'of the rule store; stratum I relies on it to reach the remote check']
 LEVEL_TEXT = ('The body/status/content-type/scheme product and every listed fault are enumerated completely at depth 0 and '
               'sampled at depth; the recorded request is checked on every call. Fault enumeration is the level: the property is '
               'about what happens for each reply and each transport failure.')
@@ -60,7 +70,9 @@ MIN = {'overlapping_evaluations': 200, 'evaluations': 800, 'requests_recorded': 
        'sequence_option_repoints': 40, 'sequence_tls_file_faults': 80, 'sequence_requests_recorded': 150,
        'url_placeholders_in_target_and_credentials': 400, 'url_placeholders_shared_with_context_credentials': 200,
        'sequence_url_placeholders_in_target_and_credentials': 80, 'sequence_url_placeholders_shared_with_context_credentials': 40,
-       'overlap_requests_with_url_keys_shared_by_target_and_credentials': 1000, 'url_placeholders_not_in_target': 30}
+       'overlap_requests_with_url_keys_shared_by_target_and_credentials': 1000, 'url_placeholders_not_in_target': 30,
+       'indirect_requests_recorded': 150, 'indirect_requests.fallback': 40, 'indirect_requests.undefined-ref': 40,
+       'indirect_requests.check-object': 15}
 ANCHORS = ['oslo_policy._external:HttpCheck.__call__', 'oslo_policy._external:HttpsCheck.__call__',
            'oslo_policy._external:HttpCheck._construct_payload', 'oslo_policy.policy:Enforcer.enforce']
 REQUIRED_ANCHORS = ['oslo_policy._external:HttpCheck.__call__', 'oslo_policy._external:HttpsCheck.__call__']
@@ -280,7 +292,7 @@ def snapshot(x):
 
 
 def judge_call(ctx, case, call, fault, tls_fault, got, exc, reqs, target, creds_sent, expected_url, ref, rules, roles,
-               pfx='', extra=None, creds_open=False):
+               pfx='', extra=None, creds_open=False, name_open=False):
     """The per-call oracle: what one evaluation of a rule with a remote check must have done, given the reply / fault that
     was injected for it.  `case` is what gets reported (replayable), `call` carries the settings of this one call (content
     type, policy name, body, status); in the one-call strata they are the same dict.  `pfx` keeps the counters of the
@@ -343,7 +355,10 @@ def judge_call(ctx, case, call, fault, tls_fault, got, exc, reqs, target, creds_
     want_target = json.loads(json.dumps({k: ({} if type(v) is object else v) for k, v in target.items()}))
     want_creds = dict(creds_sent)
     problems = {}
-    if sent.get('rule') != call['name']:
+    if name_open:
+        # a check OBJECT was handed to enforce(): there is no enforced policy NAME, the statement does not say what is sent for it
+        ctx.unconstrained('rule-name-sent-for-a-check-object')
+    elif sent.get('rule') != call['name']:
         problems['rule'] = [sent.get('rule'), call['name']]
     if sent.get('target') != want_target:
         problems['target'] = [sent.get('target'), want_target]
@@ -366,7 +381,7 @@ def judge_call(ctx, case, call, fault, tls_fault, got, exc, reqs, target, creds_
     if bool(got) != want:
         leaf_expected = bclass == 'allow'
         key = 'non-True-body-allows' if not leaf_expected else 'True-body-denies'
-        ctx.violation(key, case, D({'body': body[:60], 'status': call['status'], 'rule': rules[call['name']],
+        ctx.violation(key, case, D({'body': body[:60], 'status': call['status'], 'rule': rules.get(call['name'], rules),
                                     'expected': want, 'observed': got}))
         return True
     return False
@@ -393,10 +408,16 @@ def check_case(ctx, case):
         fault = 'none'
         tls_fault = False
     try:
-        conf = env.fresh_conf(**overrides)
-        enf = policy.Enforcer(conf, use_conf=False)
-        rules, ref = build_rules(case)
-        enf.set_rules(policy.Rules.from_dict(rules))
+        subject, name_open = case['name'], False
+        if case.get('via'):
+            if tmpdir is None:
+                tmpdir = tempfile.mkdtemp(prefix='pvtls-')
+            conf, enf, rules, ref, subject, name_open = build_indirect(case, overrides, tmpdir)
+        else:
+            conf = env.fresh_conf(**overrides)
+            enf = policy.Enforcer(conf, use_conf=False)
+            rules, ref = build_rules(case)
+            enf.set_rules(policy.Rules.from_dict(rules))
         objs = []
         target = make_target(case, objs)
         snap0 = snapshot(target)
@@ -420,7 +441,7 @@ def check_case(ctx, case):
                     kw['headers'] = {'Content-Type': 'text/plain; charset=utf-8'}
             m.post(requests_mock.ANY, **kw)
             try:
-                got = enf.enforce(case['name'], target, creds)
+                got = enf.enforce(subject, target, creds)
                 exc = None
             except Exception as e:
                 got, exc = None, e
@@ -434,7 +455,7 @@ def check_case(ctx, case):
             with requests_mock.Mocker() as m2:
                 m2.post(requests_mock.ANY, text='True')
                 try:
-                    enf.enforce(case['name'], make_target(case, []), {'roles': list(roles)})
+                    enf.enforce(subject, make_target(case, []), {'roles': list(roles)})
                 except Exception as e:
                     ctx.violation('remote-check-raises-without-fault', case, {'second_call': True, 'observed': type(e).__name__})
                     return
@@ -466,8 +487,14 @@ def check_case(ctx, case):
                         '%s, %d request(s)' % (type(exc).__name__ if exc else 'returned %r' % bool(got), len(reqs)))
             return
         # ---- faults, the request, the decision: the per-call oracle -------------
-        judge_call(ctx, case, case, fault=fault, tls_fault=tls_fault, got=got, exc=exc, reqs=reqs, target=target,
-                   creds_sent=creds_sent, expected_url=expected_url, ref=ref, rules=rules, roles=roles, creds_open=creds_open)
+        bad = judge_call(ctx, case, case, fault=fault, tls_fault=tls_fault, got=got, exc=exc, reqs=reqs, target=target,
+                         creds_sent=creds_sent, expected_url=expected_url, ref=ref, rules=rules, roles=roles, creds_open=creds_open,
+                         name_open=name_open)
+        if case.get('via') and not bad and fault == 'none' and len(reqs) == 1:
+            ctx.count('indirect_requests_recorded')
+            ctx.count('indirect_requests.' + case['via']['kind'])
+            ctx.observe('indirect_routes', '%s/%s/%s/chain%d' % (case['via']['kind'], case['via']['how'], case['via']['route'],
+                                                                case['via']['chain']))
     finally:
         if tmpdir:
             import shutil
@@ -790,6 +817,110 @@ def gen_overlap(ctx, i):
     return dict(overlap=True, a=sub('a'), b=sub('b'), ctype=r.choice(CTYPES), rseed='%s.%d.%d' % (ctx.tier, ctx.shard, i))
 
 
+# ---- the remote check reached through every indirection that enforce() offers (stratum I) ---------------------------
+# "carries the enforced policy name ... under any policy name": the name is the one given to enforce(), whichever way the
+# evaluation got to the remote check - the rule of that name, the default rule standing in for a name that is defined nowhere,
+# a rule: reference to an undefined name that ends at the default rule, a chain of rule: aliases in between.
+VIA_KINDS = ('fallback', 'undefined-ref', 'defined', 'check-object')
+VIA_HOWS = ('builtin', 'ctor', 'conf', 'ctor-check')     # how the enforcer is told its default rule
+VIA_ROUTES = ('set_rules', 'file', 'registered')         # how the rules get into the enforcer
+VIA_DNAMES = ('pv:fallback', 'déf-1', 'Default', 'deny_everything')
+VIA_REFS = ('rule:pv-nowhere', '(@ and rule:pv-nowhere)', 'not not rule:pv-nowhere', '(! or rule:pv:nowhere:2)')
+
+
+def via(kind, how='builtin', route='set_rules', chain=0, dname=None, ref=None):
+    if how == 'builtin' or dname is None:
+        dname = 'default' if how == 'builtin' else VIA_DNAMES[0]
+    return dict(kind=kind, how=how, route=route, chain=chain, dname=dname, ref=ref or VIA_REFS[0])
+
+
+def build_indirect(case, overrides, tmpdir):
+    """-> (conf, enforcer, rules dict, reference function, what is handed to enforce, True when that is a check object)."""
+    from oslo_policy import policy
+    v = case['via']
+    rules, ref = build_rules(case)
+    text = rules.pop(case['name'])
+    for j in range(v['chain']):                       # rule: aliases between the entry point and the remote check
+        rules['hop%d' % j] = text
+        text = 'rule:hop%d' % j
+    dname, kind, how = v['dname'], v['kind'], v['how']
+    default_check = None
+    rules['pv:bystander'] = 'role:zz-nobody'          # the store is never empty (an enforcer without any rule denies everything)
+    if kind in ('fallback', 'undefined-ref'):
+        if how == 'ctor-check':
+            default_check = policy.Rules.from_dict({'d': text})['d']      # the default rule given as a check, not as a name
+        else:
+            rules[dname] = text
+        if kind == 'undefined-ref':
+            rules[case['name']] = v['ref']            # the enforced rule refers to a name that is defined nowhere
+        # kind == 'fallback': the enforced name is defined nowhere at all
+    else:
+        rules[case['name']] = text
+        if how == 'ctor-check':
+            default_check = policy.Rules.from_dict({'d': '!'})['d']
+        else:
+            rules[dname] = '!'                        # a default rule exists, and has nothing to do with this evaluation
+    overrides = dict(overrides)
+    ekw = {}
+    if how == 'conf':
+        overrides['policy_default_rule'] = dname
+    elif how == 'ctor':
+        ekw['default_rule'] = dname
+    elif how == 'ctor-check':
+        ekw['default_rule'] = default_check
+    route = v['route']
+    pfile = os.path.join(tmpdir, 'policy.json')
+    if route != 'set_rules':
+        overrides['policy_file'] = pfile
+        overrides['policy_dirs'] = []
+    conf = env.fresh_conf(**overrides)
+    if route == 'file':
+        with open(pfile, 'w') as f:
+            json.dump(rules, f)
+        enf = policy.Enforcer(conf, **ekw)
+    elif route == 'registered':                       # no policy file at all: every rule is a registered default
+        enf = policy.Enforcer(conf, **ekw)
+        enf.register_defaults([policy.RuleDefault(k, t) for k, t in sorted(rules.items())])
+    else:
+        enf = policy.Enforcer(conf, use_conf=False, **ekw)
+        enf.set_rules(policy.Rules.from_dict(rules))
+    if kind == 'check-object':
+        return conf, enf, rules, ref, policy.Rules.from_dict(rules)[case['name']], True
+    return conf, enf, rules, ref, case['name'], False
+
+
+def enumerated_indirect():
+    out = []
+    for kind in VIA_KINDS:
+        for how in VIA_HOWS:
+            for route in VIA_ROUTES:
+                for chain in (0, 1, 2, 3):
+                    n = len(out)
+                    out.append(base_case(s='I', via=via(kind, how, route, chain, dname=VIA_DNAMES[n % len(VIA_DNAMES)],
+                                                        ref=VIA_REFS[(n // 3) % len(VIA_REFS)]),
+                                         ctype=CTYPES[n % 2], scheme=('http', 'https')[(n // 2) % 2], name=NAMES[(n // 5) % len(NAMES)],
+                                         body=('True', 'False', '"True"', 'true')[(n // 7) % 4], roles=['a', 'b'],
+                                         wraps=[[], ['and-role'], ['not'], ['or-role', 'alias']][(n // 11) % 4]))
+    return out
+
+
+def gen_indirect(rnd):
+    how = rnd.choice(VIA_HOWS)
+    case = dict(s='I', body=rnd.choice(['True', '"True"', 'False', 'true', rnd.choice(BODIES)]), status=rnd.choice(STATUS),
+                fault=rnd.choice(['none'] * 9 + list(TRANSPORT)), ctype=rnd.choice(CTYPES), scheme=rnd.choice(['http', 'https']),
+                wraps=[rnd.choice(WRAPS) for _ in range(rnd.randint(0, 3))], name=rnd.choice(NAMES),
+                path=rnd.choice(['/%(name)s/check', '/check', '/v1/%(id)s?x=%(flag)s', ':8080/p']),
+                roles=mixed_roles(rnd), opaque=rnd.random() < 0.3, tls=False, secrets=rnd.random() < 0.2, debug=rnd.random() < 0.4,
+                via=via(rnd.choice(VIA_KINDS[:2] * 3 + VIA_KINDS[2:]), how, rnd.choice(VIA_ROUTES), rnd.randint(0, 3),
+                        dname=rnd.choice(VIA_DNAMES), ref=rnd.choice(VIA_REFS)))
+    if rnd.random() < 0.3:
+        case.update(gen_share(rnd, conly_p=0))
+    return case
+
+
+INDIRECT = {'quick': 800, 'thorough': 20000}
+
+
 def base_case(**kw):
     c = dict(s='B', body='True', status=200, fault='none', ctype=CTYPES[0], scheme='http', wraps=[], name='svc:act',
              path='/%(name)s/check', roles=['a'], opaque=True, tls=False)
@@ -798,6 +929,22 @@ def base_case(**kw):
 
 
 def run(ctx):
+    # stratum I first (it is small): the remote check behind the default-rule fallback, undefined rule: references, alias chains,
+    # and as a check object - by every way of naming the default rule and of getting rules into the enforcer
+    irnd = ctx.sub_rnd('I', ctx.tier, ctx.shard)
+    ctx.reserve(0.2)
+    for j, case in enumerate(enumerated_indirect()):
+        if ctx.mine(j) and not ctx.expired():
+            check_case(ctx, case)
+    for i in range(INDIRECT[ctx.tier] // ctx.nshards + 1):
+        if ctx.expired():
+            break
+        case = gen_indirect(irnd)
+        check_case(ctx, case)
+        if i % 100 == 0:
+            ctx.sample(case, 'I')
+    ctx.release()
+    ctx.stratum('I', exhaustive=False)
     idx = 0
     done = True
     for body in BODIES:
